@@ -503,7 +503,7 @@ def run(ck):
         "C17 selection: coq/model/PromSem.v is the reading of ClickHouse semantics (comparison/IN/match = RE2 search/intDiv/bitShiftLeft on UInt8/groupBitOr/alias visibility) relative to which prom_select_exact* and prof_select_exact* are stated; no ClickHouse runs in the sandbox",
         "C17 selection: regular-expression matching (RE2 search for ClickHouse match(), anchored match for Prometheus) is an oracle: Section variables in the theorems, Go regexp / labels.Matcher tables in the correspondence",
         "C17 selection: checks/promsel.py parses the implementation's SQL text into a Sql.v tree; the parse is validated per case by rendering it back with the model renderer (byte equality)",
-        "C17 Select loop: CityHash64 of the joined label string is treated as injective; sort.Slice instability on ties is canonicalised away",
+        "C17 Select loop: labels.Hash() (xxhash of the label list, ReshuffleSeries' key since fix 3acbc45) is treated as injective on label lists; sort.Slice instability on ties is canonicalised away",
     ]
     ok, out = ck.coq_make(["model/PromCase.vo", "model/ProfSel.vo"])
     if not ok:
